@@ -268,16 +268,18 @@ structure Grow (s s' : St) : Prop where
   inst_mono : ∀ n i, s.instances n = some i → s'.instances n = some i
   blocked_mono : s.blocked = true → s'.blocked = true
   keys_frozen : s.blocked = true → s'.keys = s.keys
+  inj_frozen : s.blocked = true → s'.injectors = s.injectors
   log : ∃ d, s'.log = s.log ++ d ∧ ∀ n, s.instances n ≠ none → Ev.start n ∉ d
 
 theorem Grow.refl (s : St) : Grow s s :=
-  ⟨fun _ _ h => h, fun h => h, fun _ => rfl, [], by simp, fun _ _ h => nomatch h⟩
+  ⟨fun _ _ h => h, fun h => h, fun _ => rfl, fun _ => rfl, [], by simp, fun _ _ h => nomatch h⟩
 
 theorem Grow.trans {a b c : St} (h1 : Grow a b) (h2 : Grow b c) : Grow a c := by
   obtain ⟨d1, e1, l1⟩ := h1.log
   obtain ⟨d2, e2, l2⟩ := h2.log
   refine ⟨fun n i h => h2.inst_mono n i (h1.inst_mono n i h), fun h => h2.blocked_mono (h1.blocked_mono h),
-    fun h => (h2.keys_frozen (h1.blocked_mono h)).trans (h1.keys_frozen h), d1 ++ d2, by rw [e2, e1, List.append_assoc], ?_⟩
+    fun h => (h2.keys_frozen (h1.blocked_mono h)).trans (h1.keys_frozen h),
+    fun h => (h2.inj_frozen (h1.blocked_mono h)).trans (h1.inj_frozen h), d1 ++ d2, by rw [e2, e1, List.append_assoc], ?_⟩
   intro n hn hm
   rcases List.mem_append.1 hm with hm | hm
   · exact l1 n hn hm
@@ -288,7 +290,7 @@ theorem Grow.trans {a b c : St} (h1 : Grow a b) (h2 : Grow b c) : Grow a c := by
 
 theorem Grow.of_step {s s' : St} (h : Step s s') : Grow s s' := by
   obtain ⟨d, hd, l⟩ := h.log
-  exact ⟨h.inst_mono, fun _ => h.blocked, fun _ => h.keys, d, hd, l.no_start⟩
+  exact ⟨h.inst_mono, fun _ => h.blocked, fun _ => h.keys, fun _ => h.injectors, d, hd, l.no_start⟩
 
 theorem Grow.of_stepR {s s' : St} (h : StepR s s') : Grow s s' := by
   rcases h with h | h
@@ -297,7 +299,7 @@ theorem Grow.of_stepR {s s' : St} (h : StepR s s') : Grow s s' := by
 
 theorem Grow.of_tables {s s' : St} (hi : ∀ n i, s.instances n = some i → s'.instances n = some i)
     (hb : s'.blocked = s.blocked) (hl : s'.log = s.log) (hnb : ¬ s.blocked = true) : Grow s s' :=
-  ⟨hi, fun h => hb ▸ h, fun h => absurd h hnb, [], by simp [hl], fun _ _ h => nomatch h⟩
+  ⟨hi, fun h => hb ▸ h, fun h => absurd h hnb, fun h => absurd h hnb, [], by simp [hl], fun _ _ h => nomatch h⟩
 
 theorem grow_set {s : St} (n : Name) (v : Inst) : Grow s (set s n v).1 := by
   simp only [set]
